@@ -135,7 +135,23 @@ def _eval(src: str):
             host = ("rej", he.msg, he.lineno)
         except (ValueError, RecursionError, MemoryError):
             host = ("other",)
-    return a, b, host
+    single = None
+    if a[0] == "SyntaxError":
+        # the one-pass entry of the same driver (error-reporting rules on from the start): Parser.parse(rule, call_invalid_rules=True)
+        try:
+            from pegen.tokenizer import Tokenizer
+            tok = Tokenizer(tokenize.generate_tokens(io.StringIO(src).readline))
+            res = _P["PythonParser"](tok).parse("file", call_invalid_rules=True)
+            single = ("none",) if res is None else ("tree",)
+        except SyntaxError:
+            single = ("SyntaxError",)
+        except tokenize.TokenError:
+            single = ("TokenError",)
+        except RecursionError:
+            single = ("recursion",)
+        except BaseException as e:    # noqa
+            single = ("internal", type(e).__name__, str(e)[:120])
+    return a, b, host, single
 
 
 def _init(tmp_root: str):
@@ -226,8 +242,13 @@ def run(chk: common.Check, tier: str):
     with tempfile.TemporaryDirectory(prefix="pegverif-c07-") as tmp:
         with mp.get_context("fork").Pool(min(16, os.cpu_count() or 1), initializer=_init, initargs=(tmp,)) as pool:
             results = pool.map(_eval, [s for s, _ in sources], chunksize=64)
-        for (src, kind), (a, b, host) in zip(sources, results):
+        for (src, kind), (a, b, host, single) in zip(sources, results):
             chk.count()
+            if single is not None:
+                chk.bump(f"one-pass entry:{single[0]}")
+                if single[0] == "none":
+                    chk.violation("Parser.parse(rule, call_invalid_rules=True) returns None (no tree, no SyntaxError) for a program that "
+                                  "parse_string refuses", {"source": src, "entry": "PythonParser(tokenizer).parse('file', call_invalid_rules=True)"}, True)
             chk.bump(f"{kind}:{a[0]}")
             if a[0] != "tree":
                 chk.note_case(src)
